@@ -441,13 +441,14 @@ TreeSet_ixor(BTree* self, PyObject* other)
     }
     else {
         /* Each key of `other` toggles membership exactly once, however
-         * often the iterable repeats it (as the binary ^ does).
+         * often the iterable repeats it (as the binary ^ does).  The
+         * distinct keys are found by building a Set of them - by
+         * comparison, as everywhere else: keys need not be hashable.
          */
-        PyObject* distinct = PyFrozenSet_New(other);
+        PyObject* distinct = PyObject_CallFunctionObjArgs(
+            (PyObject*)&SetType, other, NULL);
         if (distinct == NULL) {
-            PyErr_Clear();
-            Py_INCREF(Py_NotImplemented);
-            return Py_NotImplemented;
+            goto err;
         }
         iter = PyObject_GetIter(distinct);
         Py_DECREF(distinct);
